@@ -101,13 +101,13 @@ def tall_table() -> dict:
 
 
 # sized column types: the specification treats them as their family
-SPEC_TYPE = {"int32": "int", "int8": "int", "uint16": "int", "float32": "float"}
+SPEC_TYPE = {"int32": "int", "int8": "int", "uint16": "int", "uint64": "int", "float32": "float"}
 
 
 def sized_table() -> dict:
     """index 13: sized integer / float columns (C12: concrete static types must equal the exported types)"""
-    rows = [[1, 3, 7, (1, 2), 2, True], [None, -2, 0, (-3, 4), None, None], [2, None, 200, None, -1, False], [-3, 5, None, (5, 2), 4, True]]
-    return dict(name="tz", cols=[("a", "int32"), ("b", "int8"), ("u", "uint16"), ("f", "float32"), ("g", "int"), ("p", "bool")], rows=rows)
+    rows = [[1, 3, 7, (1, 2), 2, True, 5], [None, -2, 0, (-3, 4), None, None, None], [2, None, 200, None, -1, False, 0], [-3, 5, None, (5, 2), 4, True, 9]]
+    return dict(name="tz", cols=[("a", "int32"), ("b", "int8"), ("u", "uint16"), ("f", "float32"), ("g", "int"), ("p", "bool"), ("w", "uint64")], rows=rows)
 
 
 def all_sources(seed: int) -> list[dict]:
